@@ -91,17 +91,17 @@ fn step_pool_raw() -> Vec<Step> {
         s("ARR+=(four)", "array-modify"),
         s("declare -A MAP=([k1]=v1 ['k 2']='v 2')", "assoc"),
         s("unset ARR", "unset-own"),
-        s("f() { echo \"f says ${X-none}\"; }", "function"),
-        s("f() { local a=1; g() { echo inner; }; g; echo outer; }", "function-nested"),
+        s("function f { echo \"f says ${X-none}\"; }", "function"),
+        s("function f { local a=1; function g { echo inner; }; g; echo outer; }", "function-nested"),
         s("unset -f f", "function-unset"),
         // a test case that tidies up its temporary directory, hidden entries included (scrut keeps the state file
         // in a hidden directory below $TMPDIR): the state must still be carried
         s("X=before-cleanup; find \"$TMPDIR\" -mindepth 1 -delete 2>/dev/null; true", "tmpdir-emptied"),
         s("Y=recreated; rm -rf \"$TMPDIR\" && mkdir \"$TMPDIR\"", "tmpdir-recreated"),
         // a function whose body needs `extglob` to be PARSED: the carrier must restore the option before the function
-        s("shopt -s extglob\ng() { case \"$1\" in +([0-9])) echo num;; *) echo other;; esac; }", "function-extglob"),
+        s("shopt -s extglob\nfunction g { case \"$1\" in +([0-9])) echo num;; *) echo other;; esac; }", "function-extglob"),
         // a function that calls a word which is (or becomes) an alias: in one session the body is fixed when it is defined
-        s("h() { ll; }", "function-calls-alias-word"),
+        s("function h { ll; }", "function-calls-alias-word"),
         // an alias with the name of a function: reading the function back must not expand it
         s("alias f='echo alias-f'", "alias-function-name"),
         // the names scrut's own hook uses must stay the user's
@@ -111,6 +111,10 @@ fn step_pool_raw() -> Vec<Step> {
         s("set +a", "set-o-allexport"),
         // the user's own EXIT trap replaces the hook that persists the state (open finding)
         s("trap 'echo bye' EXIT", "user-exit-trap"),
+        // aliases and functions with the names of the commands the state file itself uses: reading the state back must
+        // not run them
+        s("alias cd='cd -P'; alias pushd='true'", "alias-of-state-file-command"),
+        s("function cd { builtin cd \"$@\" && echo \"now in ${PWD##*/}\"; }", "function-of-state-file-command"),
         s("alias ll='echo aliased'", "alias"),
         s("unalias ll 2>/dev/null || true", "alias-unset"),
         s("shopt -s extglob", "shopt"),
@@ -221,6 +225,9 @@ fn history_case(prop: &str, steps: Vec<Step>, root: &Path, idx: u64) -> CaseRec 
         (Ok(a), Ok(b)) => {
             let na: Vec<String> = a.iter().map(|s| norm(s, &wa)).collect();
             let nb: Vec<String> = b.iter().map(|s| norm(s, &wb)).collect();
+            // a snippet that ends the reference session itself (a syntax error: `f() {` while `f` is an alias) leaves
+            // nothing to compare with from there on
+            let na: Vec<String> = if nb.len() < na.len() { na[..nb.len()].to_vec() } else { na };
             if na != nb {
                 let first = na.iter().zip(nb.iter()).position(|(x, y)| x != y).unwrap_or(na.len().min(nb.len()));
                 // classify by the state classes used up to the first deviating step
